@@ -957,6 +957,16 @@ class Audit:
         facts = _Facts(facts + self.param_facts(s.fn), cx)
         args = [B.sym_op(a, through_vars="pure") for a in t["args"]]
         cls = s.cls
+        # whatever the callee: a site whose dominating conditions contradict each other is never reached
+        # (`debug_assert!(off + 4 <= data.len())` in a helper called with off = 8 after `data.len() < 24` returned)
+        fl = list(facts)
+        for i, (f, op) in enumerate(fl):
+            if op != ">=" or not f.c:
+                continue
+            rest = fl[:i] + fl[i + 1:]
+            r = prove_ge0(f.scale(-1).add(Lin(k=1), -1), rest, cx.nonneg)
+            if r and r != "arith":
+                return "unreachable: the conditions on the way here contradict each other (%s)" % r
         if cls == "index":
             base, idx = strip_refs(args[0]), args[1]
             # range indexing: agg of Range / RangeFrom / RangeTo
